@@ -46,6 +46,17 @@ CLAIMS = {
     technique="Lean 4 proof (validity decision logic; totality of the Except-modelled panic sites; poisoning induction) + exhaustive-enum differential validation + no-panic Spec in child processes",
     note=NOTE_COMMON + " Built with overflow checks on (dev profile). Found and fixed with this check: D5 (Associated flow rule panicked at check, c7e8a84), D12 (hotspot in-flight counter wrapped, 8944323), "
          "D13 (warm-up token arithmetic overflowed under both flow locks for u32::MAX cold factor / saturating thresholds, 74e7dc6); D4 (append of an invalid rule poisoned RULE_MAP) was fixed under C10."),
+ "C17": dict(
+    category="proof",
+    text=("check_ok_iff / checkReuse_ok_iff: the clauses of ConfigEntity::check in numbers; check_ok_node_total: for every accepted configuration ResourceNode::new (two unwraps) does not panic and "
+          "yields exactly the configured ring (sample_count_total buckets covering interval_ms_total, node_ring_covers_total) and default reader; unservable_rejected: a configuration whose default "
+          "metric window cannot be served by the global window is rejected and leaves the configuration in effect unchanged; node_panics_on_bad_global (why it must be); "
+          "config_same_for_all_threads / store_read_thread_independent for the process-wide store; thread_local_store_witness: the per-thread store the code had is a counterexample. Tie: one "
+          "child process per configuration from the 6x6x5x7 grid (every accepted combination, rejected ones sampled in quick / all in thorough), by entity and by YAML, init on the main or "
+          "another thread; accessors on both threads; nodes created on both threads; window behaviour under the virtual clock compared with the C02 ring model of the configured geometry."),
+    design_ref="DESIGN.md §6 C17",
+    technique="Lean 4 proof (decision logic of the check, totality of node construction, store model) + differential correspondence per child process incl. a second thread",
+    note=NOTE_COMMON + " serde_yaml is trusted for the YAML text. Found and fixed with this check: D9 (configuration was thread_local; fix: commit 2d249fe)."),
  "C08": dict(
     category="translation_validation",
     text=("PARTIAL. Proved in Lean: structural theorems about the executable warm-up calculator for every state/threshold/clock (sync_stored_le_max, sync_once_per_second, sync_idempotent, "
